@@ -12,22 +12,26 @@ IdChars(s) == CASE s.enc = 1 -> BcdPlusChars(s.vals) [] s.enc = 2 -> Packed6Char
 \* type/length byte: bits 7:6 type, bit 5 reserved, bits 4:0 length (characters for the packed types, as the
 \* library documents; bytes for the 8-bit types)
 TypeLen(s) == s.enc * 64 + Len(s.vals)
+\* reserved bits of the record (table 43-1): byte 7 [3:2], byte 24 [7], byte 31 [7:3], ID string type/length [5].
+\* r.res = [lun (0..3), lin (0..1), flags (0..31), tl (0..1)]: a reader must ignore them
+NoRes == [lun |-> 0, lin |-> 0, flags |-> 0, tl |-> 0]
+AllRes == [lun |-> 3, lin |-> 1, flags |-> 31, tl |-> 1]
 
 FsrEnc(r) ==
-  << r.OwnerAddress, r.Channel * 16 + r.OwnerLUN, r.Number, r.Entity,
+  << r.OwnerAddress, r.Channel * 16 + r.res.lun * 4 + r.OwnerLUN, r.Number, r.Entity,
      (IF r.IsContainerEntity THEN 128 ELSE 0) + r.Instance,
      r.init, (IF r.Ignore THEN 128 ELSE 0) + r.caps, r.SensorType, r.OutputType >>
   \o r.masks                                                                       \* 6 bytes: assertion, deassertion, reading masks
   \o << r.AnalogDataFormat * 64 + r.RateUnit * 8 + r.modUse * 2 + (IF r.IsPercentage THEN 1 ELSE 0),
-        r.BaseUnit, r.ModifierUnit, r.Linearisation,
+        r.BaseUnit, r.ModifierUnit, r.res.lin * 128 + r.Linearisation,
         TwosEnc(10, r.M) % 256, (TwosEnc(10, r.M) \div 256) * 64 + r.Tolerance,
         TwosEnc(10, r.B) % 256, (TwosEnc(10, r.B) \div 256) * 64 + (TwosEnc(10, r.Accuracy) % 64),
         (TwosEnc(10, r.Accuracy) \div 64) * 16 + r.AccuracyExp * 4 + r.Direction,
         TwosEnc(4, r.RExp) * 16 + TwosEnc(4, r.BExp),
-        (IF r.NormalMinSpecified THEN 4 ELSE 0) + (IF r.NormalMaxSpecified THEN 2 ELSE 0) + (IF r.NominalReadingSpecified THEN 1 ELSE 0),
+        r.res.flags * 8 + (IF r.NormalMinSpecified THEN 4 ELSE 0) + (IF r.NormalMaxSpecified THEN 2 ELSE 0) + (IF r.NominalReadingSpecified THEN 1 ELSE 0),
         r.NominalReading, r.NormalMax, r.NormalMin, r.SensorMax, r.SensorMin >>
   \o r.thresholds                                                                  \* 6 threshold bytes, 2 hysteresis, 2 reserved, 1 OEM
-  \o << TypeLen(r.id) >> \o IdBytes(r.id)
+  \o << TypeLen(r.id) + r.res.tl * 32 >> \o IdBytes(r.id)
 FsrFieldNames == {"OwnerAddress", "Channel", "OwnerLUN", "Number", "Entity", "IsContainerEntity", "Instance", "Ignore", "SensorType", "OutputType",
                   "AnalogDataFormat", "RateUnit", "IsPercentage", "BaseUnit", "ModifierUnit", "Linearisation", "M", "Tolerance", "B", "Accuracy",
                   "AccuracyExp", "Direction", "RExp", "BExp", "NormalMinSpecified", "NormalMaxSpecified", "NominalReadingSpecified",
@@ -42,5 +46,5 @@ FsrBase(k) == [OwnerAddress |-> 32, Channel |-> k % 16, OwnerLUN |-> k % 4, Numb
                RExp |-> (k % 16) - 8, BExp |-> ((k * 3) % 16) - 8, NormalMinSpecified |-> (k % 2) = 0, NormalMaxSpecified |-> (k % 3) = 0,
                NominalReadingSpecified |-> (k % 4) = 0, NominalReading |-> (k * 3) % 256, NormalMax |-> (k * 5) % 256, NormalMin |-> (k * 7) % 256,
                SensorMax |-> 255 - (k % 7), SensorMin |-> k % 9, thresholds |-> [i \in 1..11 |-> (k * 3 + i) % 256],
-               id |-> [enc |-> 3, vals |-> <<67, 80, 85, 32, 84, 101, 109, 112>>]]
+               id |-> [enc |-> 3, vals |-> <<67, 80, 85, 32, 84, 101, 109, 112>>], res |-> NoRes]
 =============================================================================
